@@ -1020,6 +1020,9 @@ func (val Value) HasIndex(key Value) Value {
 		if key.Type() != Number {
 			return False
 		}
+		if key.IsNull() {
+			return False
+		}
 		if !key.IsKnown() {
 			return UnknownVal(Bool).RefineNotNull()
 		}
@@ -1041,6 +1044,9 @@ func (val Value) HasIndex(key Value) Value {
 		if key.Type() != String {
 			return False
 		}
+		if key.IsNull() {
+			return False
+		}
 		if !key.IsKnown() {
 			return UnknownVal(Bool).RefineNotNull()
 		}
@@ -1058,6 +1064,9 @@ func (val Value) HasIndex(key Value) Value {
 		}
 
 		if key.Type() != Number {
+			return False
+		}
+		if key.IsNull() {
 			return False
 		}
 		if !key.IsKnown() {
